@@ -392,8 +392,8 @@ def run_property(P, tier, seed, scratch, args, t0):
             rr = {"verdict": "replay-error", "error": repr(e)}
         nw = (v.get("detail") or {}).get("native_witness")
         if nw and rr.get("verdict") != "reproduced":
-            # the failing heap WAS an execution of the real collector (extracted verbatim, compiled natively)
-            rr = {"verdict": "reproduced", "how": "native execution of the extracted gc/mod.rs on the enumerated heap", "witness": nw, "cli_probe": rr}
+            # the failing case WAS an execution of the real functions (extracted verbatim, compiled natively)
+            rr = {"verdict": "reproduced", "how": "native execution of the verbatim-extracted functions (%s) on the enumerated case" % v["harness"], "witness": nw, "cli_probe": rr}
         rec["replay"] = rr
         verdict = rr.get("verdict")
         json.dump(rec, open(rp, "w"), indent=1)
